@@ -39,7 +39,10 @@ def one(name):
     for prop in PROPS:
         q = subprocess.run([os.path.join(VERIF, "check"), prop, "--repo", dst, "--no-evidence"], stdout=subprocess.PIPE, stderr=subprocess.STDOUT, text=True)
         v = [l for l in q.stdout.splitlines() if l.startswith("VIOLATION")]
-        if q.returncode != 0 or v:
+        if q.returncode not in (0, 1) or (q.returncode == 1 and not v):
+            # killed / crashed check: neither "caught" nor "silent"
+            raise RuntimeError("check %s on seed %s ended with exit %d and no VIOLATION line: %s" % (prop, name, q.returncode, q.stdout[-300:]))
+        if v:
             fired[prop] = [re.sub(r"replay=\S+ ", "", l)[:260] for l in v[:4]]
     shutil.rmtree(dst, ignore_errors=True)
     meta["checks_fired"] = fired
